@@ -262,6 +262,19 @@ type Box struct {
 	TreeBidi *treebidimap.Map[int, int]
 	// KeyCalls / ValCalls count comparator invocations (ordered kinds).
 	KeyCalls, ValCalls *int
+	// bystanders: other containers of the same kind with OTHER configurations (B-tree
+	// order, comparator), alive next to the one under test.  Nothing they do may reach
+	// it (and nothing it does may reach them): whatever is remembered per package
+	// rather than per instance shows up here.
+	bystanders []*bystander
+	byCfg      int
+	byOrder    int // the main B-tree's order
+}
+
+type bystander struct {
+	kv   KV
+	want map[int]int
+	desc string
 }
 
 // GetKey is available on the bidirectional kinds.
@@ -308,7 +321,89 @@ func New(c Case) *Box {
 	default:
 		panic("kvh: unknown kind " + c.Kind)
 	}
+	b.byCfg, b.byOrder = c.Order+len(c.Cmp), c.Order
+	b.addBystander()
 	return b
+}
+
+// addBystander makes one more container of the same kind whose configuration differs
+// from the main one and from the previous bystander, and puts a few keys into it.
+func (b *Box) addBystander() {
+	b.byCfg++
+	orders := []int{3, 4, 5, 8, 16, 33, 64}
+	cmps := []string{dom.Rev, dom.Nat, dom.Scr}
+	order := orders[b.byCfg%len(orders)]
+	if b.BT != nil && order == b.btOrder() {
+		order = orders[(b.byCfg+1)%len(orders)]
+	}
+	kc := dom.Cmp(cmps[b.byCfg%len(cmps)])
+	by := &bystander{want: map[int]int{}}
+	switch b.Kind {
+	case HashMap:
+		by.kv = hashmap.New[int, int]()
+	case LinkedHashMap:
+		by.kv = linkedhashmap.New[int, int]()
+	case HashBidi:
+		by.kv = hashbidimap.New[int, int]()
+	case TreeMap:
+		by.kv = treemap.NewWith[int, int](kc)
+	case RBT:
+		by.kv = redblacktree.NewWith[int, int](kc)
+	case AVL:
+		by.kv = avltree.NewWith[int, int](kc)
+	case BTree:
+		by.kv = btree.NewWith[int, int](order, kc)
+	case TreeBidi:
+		by.kv = treebidimap.NewWith[int, int](kc, kc)
+	}
+	by.desc = fmt.Sprintf("bystander %s (order %d, comparator %s)", b.Kind, order, cmps[b.byCfg%len(cmps)])
+	for i := 0; i < 6+b.byCfg%9; i++ {
+		k := (i*7 + b.byCfg) % 23
+		by.kv.Put(k, 500+k)
+		by.want[k] = 500 + k
+	}
+	b.bystanders = append(b.bystanders, by)
+	if len(b.bystanders) > 3 {
+		b.bystanders = b.bystanders[1:]
+	}
+}
+
+func (b *Box) btOrder() int { return b.byOrder }
+
+// Poke uses the bystanders between two steps of the main history: one Put or Remove on
+// each, a lookup, a size check, now and then a full comparison and a new bystander.
+func (b *Box) Poke(step int) error {
+	for _, by := range b.bystanders {
+		k := (step*5 + 3) % 29
+		if step%3 == 2 {
+			by.kv.Remove(k)
+			delete(by.want, k)
+		} else {
+			by.kv.Put(k, 600+step)
+			by.want[k] = 600 + step
+		}
+		if v, ok := by.kv.Get(k); ok != (step%3 != 2) || ok && v != by.want[k] {
+			return fmt.Errorf("%s: Get(%d) = (%d,%v) right after its own update at step %d of the main history", by.desc, k, v, ok, step)
+		}
+		if by.kv.Size() != len(by.want) {
+			return fmt.Errorf("%s: Size()=%d, it holds %d keys (step %d of the main history)", by.desc, by.kv.Size(), len(by.want), step)
+		}
+		if step%8 == 0 {
+			keys := by.kv.Keys()
+			if len(keys) != len(by.want) {
+				return fmt.Errorf("%s: Keys()=%v, it holds %d keys", by.desc, keys, len(by.want))
+			}
+			for _, k := range keys {
+				if v, ok := by.kv.Get(k); !ok || v != by.want[k] {
+					return fmt.Errorf("%s: Get(%d) = (%d,%v), want (%d,true)", by.desc, k, v, ok, by.want[k])
+				}
+			}
+		}
+	}
+	if step%16 == 5 {
+		b.addBystander()
+	}
+	return nil
 }
 
 // ---------------------------------------------------------------------------
